@@ -152,7 +152,7 @@ Print Assumptions C02_source_class_table.
 
 (** * Non-vacuity: stop under swallow + retry inside a called group inside a child pipeline *)
 Definition mk (name : string) (b : body) (inn : dict) (sw : val) (rt : option rcfg) : step :=
-  mkstep name b (Some inn) None None rt (VBool true) (VBool false) sw None (Some (1, 5)%Z).
+  mkstep name b (Some inn) None None rt (VBool true) (VBool false) sw None (Some (1, 5)%Z) None.
 Definition rc3 := mkr (Some (VInt 3)) (VInt 0) None None (VInt 0) None None None.
 Definition lib2 : library :=
   [("main", [("steps", Some [mk "vprobe" BProbe [(VStr "ptag", VStr "m0")] (VBool false) None;
